@@ -80,8 +80,10 @@ PLAIN = {
 
 
 def is_ws_free_token(s):
-    """Domain of the property: non-empty tokens without any whitespace character."""
-    return bool(s) and not any(ch.isspace() for ch in s)
+    """Domain of the property: non-empty tokens without any whitespace character (no character with
+    str.isspace(); str.split() cuts at exactly those characters, so "splits into itself" is the same test,
+    evaluated in C instead of once per character)."""
+    return bool(s) and s.split() == [s]
 
 
 def field_blocks(text):
